@@ -191,7 +191,7 @@ fn scenarios() -> &'static Vec<(String, CaseFn)> {
         }
         // parts added to a check after tapes had been saved go last, in the order listed here
         // (the first draw of a C10 tape is an index into this table)
-        const LATE: &[&str] = &["C17/deep"];
+        const LATE: &[&str] = &["C17/deep", "C02/reuse"];
         for name in LATE {
             if let Some(i) = t.iter().position(|(n, _)| n == name) {
                 let e = t.remove(i);
